@@ -658,6 +658,13 @@ func (w *World) ifaceAsContract(fc *FuncContract) *FuncContract {
 	d.Inline = false
 	d.File = ic.File + "@iface"
 	d.Tags = fc.Tags
+	// ghost attributes defined over the implementation's real fields (ghostdef): the interface contract's frame speaks
+	// about the attributes, the implementation's own contract carries the frame over the fields
+	for k := range w.cs.GhostDefs {
+		if i := strings.LastIndex(fc.Key, ")."); i > 0 && strings.HasPrefix(k, strings.TrimPrefix(strings.TrimPrefix(fc.Key[:i], "("), "*")+".") {
+			d.ModAll = true
+		}
+	}
 	return &d
 }
 
